@@ -3599,6 +3599,7 @@ _dispatch_lane_drain(dispatch_lane_t dq, dispatch_invoke_context_t dic,
 		dispatch_assert(dic->dic_barrier_waiter == NULL);
 		dc = next_dc;
 		if (unlikely(!dc)) {
+			_dispatch_verif_point(&dq->dq_items_tail);
 			if (!dq->dq_items_tail) {
 				break;
 			}
